@@ -7,13 +7,13 @@ require (
 	github.com/jmeaster30/vore/libvore/ast v0.0.0
 	github.com/jmeaster30/vore/libvore/bytecode v0.0.0
 	github.com/jmeaster30/vore/libvore/engine v0.0.0
+	github.com/jmeaster30/vore/libvore/files v0.0.0
 	pgregory.net/rapid v1.3.0
 )
 
 require (
 	github.com/jmeaster30/vore/libvore/algo v0.0.0 // indirect
 	github.com/jmeaster30/vore/libvore/ds v0.0.0 // indirect
-	github.com/jmeaster30/vore/libvore/files v0.0.0 // indirect
 )
 
 replace (
